@@ -27,8 +27,10 @@ func (sc *SubnetConfig) getSubnetsVarint(seed []byte, weighted bool) ([]*phantom
 			return nil, fmt.Errorf("failed to seed random for weighted rand")
 		}
 
-		// nolint:staticcheck // here for backwards compatibility with clients
-		mrand.Seed(seedInt)
+		// A source of our own, seeded like the process-global one used to be: the sequence is the
+		// same (backwards compatibility with clients), but concurrent selections can no longer
+		// re-seed or draw from each other's source between our Seed and our draw.
+		rng := mrand.New(mrand.NewSource(seedInt))
 
 		choices := make([]wr.Choice, 0, len(sc.WeightedSubnets))
 		for _, cjSubnet := range sc.WeightedSubnets {
@@ -40,7 +42,7 @@ func (sc *SubnetConfig) getSubnetsVarint(seed []byte, weighted bool) ([]*phantom
 			return nil, err
 		}
 
-		return parseSubnets(c.Pick().(*pb.PhantomSubnets))
+		return parseSubnets(c.PickSource(rng).(*pb.PhantomSubnets))
 
 	}
 
@@ -211,12 +213,11 @@ func SelectAddrFromSubnet(seed []byte, net1 *net.IPNet) (net.IP, error) {
 		return nil, fmt.Errorf("failed to create seed ")
 	}
 
-	// nolint:staticcheck // here for backwards compatibility with clients
-	mrand.Seed(seedInt)
+	// See getSubnetsVarint: same sequence as seeding the global source, without sharing it.
+	rng := mrand.New(mrand.NewSource(seedInt))
 	randBytes := make([]byte, addrLen/8)
 
-	// nolint:staticcheck // here for backwards compatibility with clients
-	_, err := mrand.Read(randBytes)
+	_, err := rng.Read(randBytes)
 	if err != nil {
 		return nil, err
 	}
